@@ -348,9 +348,16 @@ def step(case, rng, mole, t: Table, ops_log):
         if len(t.rows) == 0:
             t2 = Table(list(other.rows), other.columns)
         m = mole.copy()
+        if rng.random() < 0.7:   # a data-frame operation on the very object that is appended to afterwards
+            _ = m.head(2), m.to_dataframe()
         ret = m.append(mo)
         case.check(ret is m, "append must return the same instance")
         compare(case, m, t2, "append")
+        # every view of the appended object must show the appended rows
+        if len(t2.rows):
+            compare(case, m.head(len(t2.rows) + 3), t2, "head() after append")
+            case.check(len(m.to_dataframe()) == len(t2.rows), "to_dataframe() after append misses rows", None,
+                       got=len(m.to_dataframe()), want=len(t2.rows))
         return m, t2
 
     if op == "with_features":
